@@ -30,6 +30,9 @@ type res struct {
 	BOut   uint64 `json:"bytes_out"`
 	Lat    int64  `json:"lat"`
 	Err    string `json:"error"`
+	// Attack name (hex, it may be invalid UTF-8) and sequence number of the result: not part of any label
+	AttackHex string `json:"attack_hex,omitempty"`
+	Seq       uint64 `json:"seq,omitempty"`
 }
 
 // sequence of observed results; Workers = 0: sequential, otherwise the number of goroutines
@@ -41,7 +44,33 @@ type sequence struct {
 
 func (x res) result() *vegeta.Result {
 	return &vegeta.Result{Method: x.Method, URL: x.URL, Code: x.Code, BytesIn: x.BIn, BytesOut: x.BOut,
-		Latency: time.Duration(x.Lat), Error: x.Err}
+		Latency: time.Duration(x.Lat), Error: x.Err, Attack: string(kit.UnHex(orDash(x.AttackHex))), Seq: x.Seq}
+}
+
+func orDash(h string) string {
+	if h == "" {
+		return "-"
+	}
+	return h
+}
+
+// attackNames: empty, one rune, ~60, 110–130 and 300 runes, ASCII and multi-byte, and invalid UTF-8
+func genAttackName(r *kit.Rng) (string, string) {
+	unit := []string{"a", "ü", "✓", "名"}[r.Pick(4)]
+	switch r.Pick(8) {
+	case 0:
+		return "", "empty"
+	case 1:
+		return unit, "1_rune"
+	case 2:
+		return strings.Repeat(unit, int(r.Range(55, 65))), "about_60_runes"
+	case 3, 4, 5:
+		return strings.Repeat(unit, int(r.Range(110, 130))), "110_to_130_runes"
+	case 6:
+		return strings.Repeat(unit, 300), "300_runes"
+	default:
+		return []string{"\xff\xfe attack", "caf\xe9", strings.Repeat("x", 40) + "\xc3"}[r.Pick(3)], "invalid_utf8"
+	}
 }
 
 func baseKey(method, url, code string) string {
@@ -595,6 +624,23 @@ func runC20(c *run.Ctx, s *kit.Summary) {
 			// hundreds of distinct error messages on one Metrics instance (transport errors carry an ephemeral port)
 			size = int(r.Range(300, 800))
 			sq.Results = manyMessages(r, genSequence(r, size, s), s)
+		}
+		if r.Chance(0.6) {
+			// attack name and sequence numbers travel with every result (they are no labels)
+			name, kind := genAttackName(r)
+			s.Count("attack_name:" + kind)
+			seq := uint64(0)
+			if r.Chance(0.3) {
+				seq = uint64(r.PickI64([]int64{9, 99, 999999, 1 << 40, math.MaxInt64 - 5000}))
+				s.Count("attack_name:large_seq")
+			}
+			for j := range sq.Results {
+				sq.Results[j].AttackHex = kit.HexS(name)
+				if name == "" {
+					sq.Results[j].AttackHex = ""
+				}
+				sq.Results[j].Seq = seq + uint64(j)
+			}
 		}
 		if r.Chance(0.5) {
 			sq.Workers = int(r.Range(2, 16))
